@@ -51,8 +51,17 @@ fn build_text(tok: &str, pos: usize, wrap: usize) -> Vec<u8> {
 }
 
 fn check_against_reader(acc: &mut Acc, sub: &'static str, rank: u64, text: &[u8], po: &PO) {
+    check_against_reader_src(acc, sub, rank, text, po, false);
+    // the stream source has its own scanners for symbols and strings: the documented reading is
+    // the same there (corpus sub-check; the alphabet sweep stays on the slice source)
+    if sub == "corpus-vs-reference" {
+        check_against_reader_src(acc, sub, rank, text, po, true);
+    }
+}
+
+fn check_against_reader_src(acc: &mut Acc, sub: &'static str, rank: u64, text: &[u8], po: &PO, reader: bool) {
     let model = read_one(text, po);
-    let actual = parse_slice(text, po.to_lexpr());
+    let actual = if reader { crate::outcome::parse_reader(text, po.to_lexpr()) } else { parse_slice(text, po.to_lexpr()) };
     acc.evals += 1;
     let verdict: Option<(&'static str, String)> = match (&model, &actual) {
         (_, Outcome::Panic(_)) => None, // totality is C03's business
@@ -95,7 +104,7 @@ fn check_against_reader(acc: &mut Acc, sub: &'static str, rank: u64, text: &[u8]
         };
         let cls = format!("{}->{}", mk, ak);
         let (h, pi) = (hex(text), po.index());
-        acc.violation(sub, kind, &format!("{}:{}", kind, cls), rank, format!("input={:?} opts=[{}]", show_bytes(text), po.describe()), detail, || json!({"input_hex": h, "po": pi}));
+        acc.violation(sub, kind, &format!("{}:{}", kind, cls), rank, format!("source={} input={:?} opts=[{}]", if reader { "reader" } else { "slice" }, show_bytes(text), po.describe()), detail, || json!({"input_hex": h, "po": pi}));
     }
 }
 
